@@ -47,6 +47,9 @@ func mroot(t interface{ Fatalf(string, ...any) }) string {
 }
 
 type e2Case struct {
+	// file runs: tokens for which a stage wrote a file / returned a path
+	tokensWritten  map[string]bool
+	tokensReturned map[string]bool
 	*mrprun.Case
 	prog  *mrogen.Program
 	src   string
@@ -886,6 +889,17 @@ func (c *e2Case) e2Outs(t *rapid.T, pos string, ty mrogen.Ty, want, got any, nes
 			return
 		}
 		kind := filesim.LeafKind(ty.Base, tok)
+		if !c.tokensWritten[tok] && !c.tokensReturned[tok] {
+			// the token was produced for an output of type string that
+			// stayed a plain string (no file): as a file it names nothing
+			if got != nil {
+				fail(t, "C13", "outs-record-differs", "%s: %s for the plain string %q bound to a file-typed output, expected null\n%s", pos, jsonx.Marshal(got), tok, c.describe())
+			}
+			return
+		}
+		if !c.tokensWritten[tok] {
+			kind = "never"
+		}
 		if kind == "never" {
 			if got != nil {
 				fail(t, "C13", "never-written-file-not-null", "%s: %s for a path that was returned but never written\n%s", pos, jsonx.Marshal(got), c.describe())
@@ -987,6 +1001,15 @@ func TestE2Files(t *testing.T) {
 		c.logf("vdr mode %s", mode)
 		recs := c.Ledger()
 		entries := c.fileEntries()
+		c.tokensWritten, c.tokensReturned = map[string]bool{}, map[string]bool{}
+		for _, e := range entries {
+			if e.Kind == "out" {
+				c.tokensReturned[e.Token] = true
+				if e.Written {
+					c.tokensWritten[e.Token] = true
+				}
+			}
+		}
 		// --- C04: every job found the files named in its arguments
 		consumers := 0
 		if only("C04") {
